@@ -1,6 +1,8 @@
 package fw
 
 import (
+	"go/constant"
+	"go/token"
 	"regexp"
 
 	"golang.org/x/tools/go/ssa"
@@ -49,35 +51,11 @@ func EdgeOutcome(pred, b *ssa.BasicBlock) (succ int, known bool) {
 	if pi < 0 {
 		return 0, false
 	}
-	if v, trueMeansNil, isNil := NilCheck(iff.Cond); isNil {
-		phi, isPhi := v.(*ssa.Phi)
-		if !isPhi || phi.Block() != b || pi >= len(phi.Edges) {
-			return 0, false
-		}
-		switch nilness(phi.Edges[pi], pred) {
-		case 1: // nil
-			if trueMeansNil {
-				return 0, true
-			}
-			return 1, true
-		case 2: // non-nil
-			if trueMeansNil {
-				return 1, true
-			}
-			return 0, true
-		}
+	phi, eval, isTest := PhiTest(iff.Cond)
+	if !isTest || phi.Block() != b || pi >= len(phi.Edges) {
 		return 0, false
 	}
-	v, neg := BoolCond(iff.Cond)
-	phi, isPhi := v.(*ssa.Phi)
-	if !isPhi || phi.Block() != b || pi >= len(phi.Edges) {
-		return 0, false
-	}
-	if cst, isC := phi.Edges[pi].(*ssa.Const); isC && cst.Value != nil {
-		val := cst.Value.String() == "true"
-		if neg {
-			val = !val
-		}
+	if val, known := eval(phi.Edges[pi], pred); known {
 		if val {
 			return 0, true
 		}
@@ -217,4 +195,61 @@ func ExitOrigins(r *ssa.Return, idx int) []*ssa.BasicBlock {
 		return []*ssa.BasicBlock{r.Block()}
 	}
 	return out
+}
+
+// PhiTest recognises a branch condition that tests a phi: a nil test, the boolean phi itself
+// (possibly negated), or an (in)equality of the phi with a constant. eval gives the truth value
+// of the condition for one incoming operand of the phi, when that operand decides it.
+func PhiTest(cond ssa.Value) (phi *ssa.Phi, eval func(e ssa.Value, pred *ssa.BasicBlock) (bool, bool), ok bool) {
+	if nv, trueMeansNil, isNil := NilCheck(cond); isNil {
+		p, isPhi := nv.(*ssa.Phi)
+		if !isPhi {
+			return nil, nil, false
+		}
+		return p, func(e ssa.Value, pred *ssa.BasicBlock) (bool, bool) {
+			switch nilness(e, pred) {
+			case 1:
+				return trueMeansNil, true
+			case 2:
+				return !trueMeansNil, true
+			}
+			return false, false
+		}, true
+	}
+	v, neg := BoolCond(cond)
+	if p, isPhi := v.(*ssa.Phi); isPhi {
+		return p, func(e ssa.Value, pred *ssa.BasicBlock) (bool, bool) {
+			if cst, isC := e.(*ssa.Const); isC && cst.Value != nil && cst.Value.Kind() == constant.Bool {
+				return constant.BoolVal(cst.Value) != neg, true
+			}
+			return false, false
+		}, true
+	}
+	if bo, isB := v.(*ssa.BinOp); isB && (bo.Op == token.EQL || bo.Op == token.NEQ) {
+		var p *ssa.Phi
+		var k *ssa.Const
+		if x, isPhi := bo.X.(*ssa.Phi); isPhi {
+			p = x
+			k, _ = bo.Y.(*ssa.Const)
+		} else if y, isPhi := bo.Y.(*ssa.Phi); isPhi {
+			p = y
+			k, _ = bo.X.(*ssa.Const)
+		}
+		if p == nil || k == nil || k.Value == nil {
+			return nil, nil, false
+		}
+		return p, func(e ssa.Value, pred *ssa.BasicBlock) (bool, bool) {
+			cst, isC := e.(*ssa.Const)
+			if !isC || cst.Value == nil || cst.Value.Kind() != k.Value.Kind() {
+				return false, false
+			}
+			eq := constant.Compare(cst.Value, token.EQL, k.Value)
+			res := eq == (bo.Op == token.EQL)
+			if neg {
+				res = !res
+			}
+			return res, true
+		}, true
+	}
+	return nil, nil, false
 }
